@@ -33,6 +33,7 @@ func runC03(p *Prog, r *Report) {
 	accessibilityRule(p, r, "C03.R5")
 	accessibleRule(p, r, "C03.R5b")
 	typeClassificationRule(p, r, "C03.R7")
+	c08R2(p, r, "C03.R8")
 	// R6
 	r.Rule("C03.R6", "generator.Generate returns (nil, err) for a failing converter before any file is rendered (shared with C17.O4)", 1)
 	if _, sf := needFunc(p, r, "generator.Generate"); sf != nil {
@@ -254,6 +255,56 @@ func trueFactsOfReturn(ret *ssa.Return) (vals []ssa.Value, mayBeTrue bool) {
 	return expandFacts(facts), true
 }
 
+// trueAlternativesOfReturn is trueFactsOfReturn in disjunctive form: `return a || b`
+// (a φ with several edges that may be true) yields one fact set per edge, so that a
+// gate can be required of every way of returning true, not of their union.
+func trueAlternativesOfReturn(ret *ssa.Return) [][]ssa.Value {
+	ph, ok := ret.Results[0].(*ssa.Phi)
+	if !ok || ph.Block() != ret.Block() {
+		f, may := trueFactsOfReturn(ret)
+		if !may {
+			return nil
+		}
+		return [][]ssa.Value{f}
+	}
+	var dom []ssa.Value
+	addDom := func(b *ssa.BasicBlock, to *[]ssa.Value) {
+		for d := b; d != nil && d.Idom() != nil; d = d.Idom() {
+			idom := d.Idom()
+			if ifi, ok := idom.Instrs[len(idom.Instrs)-1].(*ssa.If); ok {
+				if idom.Succs[0].Dominates(b) && len(idom.Succs[0].Preds) == 1 {
+					*to = append(*to, ifi.Cond)
+				}
+				if idom.Succs[1].Dominates(b) && len(idom.Succs[1].Preds) == 1 {
+					*to = append(*to, negFact{ifi.Cond})
+				}
+			}
+		}
+	}
+	addDom(ret.Block(), &dom)
+	var alts [][]ssa.Value
+	for i, e := range ph.Edges {
+		if k, ok := e.(*ssa.Const); ok && k.Value != nil && k.Value.Kind() == constant.Bool && !constant.BoolVal(k.Value) {
+			continue
+		}
+		facts := append([]ssa.Value{}, dom...)
+		if _, isK := e.(*ssa.Const); !isK {
+			facts = append(facts, e)
+		}
+		pred := ph.Block().Preds[i]
+		addDom(pred, &facts)
+		if ifi, ok := pred.Instrs[len(pred.Instrs)-1].(*ssa.If); ok && len(pred.Succs) == 2 {
+			if pred.Succs[0] == ph.Block() && pred.Succs[1] != ph.Block() {
+				facts = append(facts, ifi.Cond)
+			} else if pred.Succs[1] == ph.Block() && pred.Succs[0] != ph.Block() {
+				facts = append(facts, negFact{ifi.Cond})
+			}
+		}
+		alts = append(alts, expandFacts(facts))
+	}
+	return alts
+}
+
 // expandFacts: a condition materialised as `a && b` is a phi [false, …, X]; when it is
 // known true, X is true and so is everything that had to hold to evaluate X.
 func expandFacts(facts []ssa.Value) []ssa.Value {
@@ -386,9 +437,16 @@ func fieldPathOfParam(v ssa.Value, path ...string) int {
 	return -1
 }
 
-func matchesGates(p *Prog, r *Report, id string) {
-	r.Rule(id, "each builder's Matches can return true only when its gate holds: the opt-in setting was read true (SourcePointer, SkipCopy, UseUnderlyingTypeMethods, Enum), SkipCopy additionally requires identical types (source.String == target.String or types.Identical), Basic requires equal BasicType.Kind() (an injective view), List requires a non-array target, and the shape rules test both source and target", 11)
+func matchesGates(p *Prog, r *Report, id string, only ...string) {
+	floor := 11
+	if len(only) > 0 {
+		floor = len(only)
+	}
+	r.Rule(id, "each builder's Matches can return true only when its gate holds: the opt-in setting was read true (SourcePointer, SkipCopy, UseUnderlyingTypeMethods, Enum), SkipCopy additionally requires identical types (source.String == target.String or types.Identical), Basic requires equal BasicType.Kind() (an injective view), List requires a non-array target, and the shape rules test both source and target"+onlyNote(only), floor)
 	for _, g := range gateTable {
+		if len(only) > 0 && !has(only, g.fn) {
+			continue
+		}
 		fi, sf := needFunc(p, r, g.fn)
 		if fi == nil {
 			continue
@@ -402,24 +460,26 @@ func matchesGates(p *Prog, r *Report, id string) {
 				if !ok {
 					continue
 				}
-				facts, may := trueFactsOfReturn(ret)
-				if !may {
+				alts := trueAlternativesOfReturn(ret)
+				if len(alts) == 0 {
 					continue
 				}
 				nret++
-				for _, fl := range g.flags {
-					found := false
-					for _, f := range facts {
-						if loadsField(f, fl) {
-							found = true
+				for _, facts := range alts {
+					for _, fl := range g.flags {
+						found := false
+						for _, f := range facts {
+							if loadsField(f, fl) {
+								found = true
+							}
+						}
+						if !found {
+							bad = fmt.Sprintf("%s: can return true without the setting %s having been read as true", p.PosStr(ret.Pos()), fl)
 						}
 					}
-					if !found {
-						bad = fmt.Sprintf("%s: can return true without the setting %s having been read as true", p.PosStr(ret.Pos()), fl)
+					if m := extraGate(g.extra, facts, sf); m != "" && bad == "" {
+						bad = p.PosStr(ret.Pos()) + ": " + m
 					}
-				}
-				if m := extraGate(g.extra, facts, sf); m != "" && bad == "" {
-					bad = p.PosStr(ret.Pos()) + ": " + m
 				}
 			}
 		}
@@ -433,6 +493,9 @@ func matchesGates(p *Prog, r *Report, id string) {
 		}
 	}
 	// Enum.Matches delegates to isEnum
+	if len(only) > 0 {
+		return
+	}
 	if fi := p.Func("builder.(*Enum).Matches"); fi != nil {
 		if len(findCalls(fi.Pkg.TypesInfo, fi.Decl, modPath+"/builder", "", "isEnum")) == 1 && len(fi.Decl.Body.List) == 1 {
 			r.OK("builder.(*Enum).Matches/gate", p.PosStr(fi.Decl.Pos()), "return isEnum(ctx, source, target)")
@@ -442,6 +505,13 @@ func matchesGates(p *Prog, r *Report, id string) {
 	} else {
 		r.Unresolved("builder.(*Enum).Matches")
 	}
+}
+
+func onlyNote(only []string) string {
+	if len(only) == 0 {
+		return ""
+	}
+	return " [here restricted to " + strings.Join(only, ", ") + "]"
 }
 
 // extraGate checks the additional fact among the conditions known true.
